@@ -58,7 +58,8 @@ def make_path_variants(root):
     variants = {"full": full}
     # "spaced": all three helpers, found through a directory whose name contains blanks (C:\\Program Files\\Git\\bin,
     # "/Applications/Dev Tools/bin")
-    for name, tools in (("diffonly", ("diff", "diff3")), ("bare", ()), ("spaced", ("git", "diff", "diff3"))):
+    # "diffnodiff3": busybox / Alpine style - a `diff` but neither `diff3` nor git
+    for name, tools in (("diffonly", ("diff", "diff3")), ("bare", ()), ("spaced", ("git", "diff", "diff3")), ("diffnodiff3", ("diff",))):
         d = os.path.join(root, "path-" + name if name != "spaced" else "path with blanks in it")
         os.makedirs(d, exist_ok=True)
         for t in _COREUTILS + tools:
